@@ -671,6 +671,24 @@ func checkC20(c *Ctx) {
 		R.check(repl, "C20.cap", "maintainChildState:replacement", su.pos(f.Pos()), "replacements are spawned only while refCount < InitProcs", "replacement workers are spawned without the refCount < InitProcs test")
 	}
 
+	// ---- C20.channels (rendezvous): a worker's registration cannot be overtaken by its own exit report because the event
+	// channels are unbuffered: spawnProcess starts the goroutine that reports the exit only after the registration was
+	// taken by the bookkeeping goroutine
+	if g := su.ssaFunc("pkg/server", "NewZnPMServer"); g != nil {
+		nCh, okCh := 0, true
+		for _, in := range instrsOf(g) {
+			mc, ok := in.(*ssa.MakeChan)
+			if !ok {
+				continue
+			}
+			nCh++
+			if k, isK := mc.Size.(*ssa.Const); !isK || k.Int64() != 0 {
+				okCh = false
+			}
+		}
+		R.check(okCh && nCh >= 3, "C20.channels", "pkg/server.NewZnPMServer:unbuffered", su.pos(g.Pos()), "addChan / updateChan / delChan are unbuffered", "an event channel of the bookkeeping goroutine is buffered: the exit report of a worker that dies early can be processed before its registration, the dead pid then stays registered for ever and is never replaced (pool below --init-procs)")
+	}
+
 	// ---- C20.exit: every worker that ends is reported: in the goroutine that waits for the worker process no path from
 	// cmd.Wait() to the goroutine's end skips the send on delChan (a worker that ends with a non-zero status - a timeout
 	// kill, a crash - would otherwise never be replaced)
